@@ -5,7 +5,7 @@ false alarm to triage.  usage: run_refactors.py [dir-prefix ...]"""
 import json, os, subprocess, sys, glob
 m = json.load(open('/verif/MANIFEST.json'))
 checks = [c['property_id'] for c in m['checks']]
-base = sys.argv[1] if len(sys.argv) > 1 else '/tmp/out3'
+base = sys.argv[1] if len(sys.argv) > 1 else '/verif/refactors'
 only = sys.argv[2:]
 st = subprocess.run('git -C /repo status --porcelain', shell=True, capture_output=True, text=True).stdout.strip()
 if st:
